@@ -10,12 +10,22 @@
      the per-class corollaries);
    - lexical bounds: integers never exceed 2^32-1, a string / pattern never exceeds the lexeme buffer;
    - the gate: a rejected configuration makes main exit non-zero with no message examined (C14_gate).
-   NOT proved: (1) that every well-formed configuration printed from the grammar is accepted (the converse
-   direction), (2) anything about the yacc automaton: its error recovery after the first diagnostic and
-   the termination of config_parse on arbitrary bytes.  Both are covered only by the correspondence runs of
+   - the converse (ConfAccept.v, C14_generated_accepted): EVERY configuration generated from the documented grammar
+     is accepted and yields the tree the grammar denotes.  A configuration is an abstract syntax tree - maildir / stdin
+     sections; rules "match cond actions" and "match cond { rules }" nested to any depth; conditions built from
+     and / or / ! / parentheses / attachment over body, header, date (all fields, < and >, every scalar), new, old, all,
+     isdirectory, command; all twelve actions including exec options and attachment blocks - that satisfies the
+     semantic rules of mdsort.conf(5) (decidable predicate secs_ok); it is written out with ANY separator made of white
+     space and comments in front of every token; the model parser, with the fuel config_parse gives itself, accepts the
+     text.  Excluded from the tree type: macros and tilde expansion (strings without "$" and a leading "~"), escaped
+     delimiters inside strings and patterns.
+   NOT proved: anything about the yacc automaton: its error recovery after the first diagnostic and
+   the termination of config_parse on arbitrary bytes.  These are covered only by the correspondence runs of
    harness/c14.py (grammar-generated files, a catalogue of invalidating edits, byte-level mutations under
    sanitizers and a time limit) and are labelled tests there. *)
-From MD Require Import Bytes Generated InterpDefs ConfDefs MainDefs ConfProofs.
+From Coq Require Import List Bool NArith ZArith String Ascii.
+Import ListNotations.
+From MD Require Import Bytes Generated InterpDefs ConfDefs MainDefs ConfProofs ConfAccept.
 
 Theorem C14_accepted_is_wellformed : forall home regcomp_ok file cs,
   parse_config home regcomp_ok file = Accepted cs -> Forall (config_ok regcomp_ok) cs.
@@ -96,3 +106,37 @@ Print Assumptions C14_example_accept.
 Example C14_example_reject : parse_config [] ok_all conf_bad = Rejected.
 Proof. vm_compute. reflexivity. Qed.
 Print Assumptions C14_example_reject.
+
+(* ---- the converse: every configuration generated from the grammar is accepted ------------------------------------------------------- *)
+Theorem C14_generated_accepted : forall home regcomp_ok sp fin secs,
+  sepb sp = true -> blankb false fin = true -> secs_ok regcomp_ok [] secs = true ->
+  parse_config home regcomp_ok (render_config sp secs fin) = Accepted (map conf_of secs).
+Proof. exact generated_config_accepted. Qed.
+Print Assumptions C14_generated_accepted.
+
+(* non-vacuity: a configuration using every kind of condition and action; rendered with single spaces, and with a
+   separator made of a newline, a tab, a comment and a space *)
+Definition bs (s : string) : bytes := map (fun a => N.of_nat (nat_of_ascii a)) (list_ascii_of_string s).
+Definition str_of (b : bytes) : string := string_of_list_ascii (map (fun c => ascii_of_nat (N.to_nat c)) b).
+Definition sp1 (src fl : string) : spat := mkspat 47 (bs src) (bs fl).
+Definition ex_secs : list section :=
+  [ SMaildir (SMany [bs "/home/u/Maildir/INBOX"; bs "/home/u/Maildir/Lists"])
+      [ RActs (mkc (UHeader (SOne (bs "From")) (sp1 "boss@example" "i")) [(true, UNeg UNew)]) [AMove (bs "/home/u/work"); AFlagNew];
+        RBlock (mkc (UParen UAll [(false, UDate 3 true (bs "2") 2 (bs "weeks") 604800)]) [])
+          [ RActs (mkc (UBody (sp1 "viagra" "")) []) [ADiscard];
+            RActs (mkc UAll []) [ALabel (SMany [bs "a"; bs "b"]); APass] ];
+        RActs (mkc (UAtt (UHeader (SOne (bs "Content-Type")) (sp1 "pdf" ""))) [])
+          [ AAttBlock [RActs (mkc UAll []) [AExec true true (SOne (bs "cat"))]]; AAddHeader (bs "X-A") (bs "1") ] ];
+    SStdin [RActs (mkc (UCommand (SMany [bs "spamc"; bs "-c"])) []) [AReject];
+            RActs (mkc UOld [(false, UIsDir (bs "/tmp"))]) [AFlagNotNew; ABreak]] ].
+Definition ex_sep : bytes := [10; 9; 35; 32; 99; 10; 32]%N.            (* LF TAB "# c" LF SPACE *)
+
+Example C14_ex_generated :
+  secs_ok ok_all [] ex_secs = true /\ sepb (bs " ") = true /\ sepb ex_sep = true /\
+  str_of (render_config (bs " ") ex_secs []) =
+  (" maildir { ""/home/u/Maildir/INBOX"" ""/home/u/Maildir/Lists"" } { match header ""From"" /boss@example/i and ! new move ""/home/u/work"" flag new" ++
+   " match ( all or date modified > 2 weeks ) { match body /viagra/ discard match all label { ""a"" ""b"" } pass }" ++
+   " match attachment header ""Content-Type"" /pdf/ attachment { match all exec stdin body ""cat"" } add-header ""X-A"" ""1"" }" ++
+   " stdin { match command { ""spamc"" ""-c"" } reject match old or isdirectory ""/tmp"" flag ! new break }")%string /\
+  parse_config (bs "/home/u") ok_all (render_config ex_sep ex_secs [10%N]) = Accepted (map conf_of ex_secs).
+Proof. vm_compute. repeat split; reflexivity. Qed.
